@@ -313,7 +313,7 @@ def failures(case, out, reply):
         fails.append((FUNCS[0] + sfx, "raises:" + err_kind(out), f"valid input raised/timed out: {out[1]}"))
         return fails, tdivs, counts
     r = out[1]
-    closed, m_scc, m_topo, m_cadj, cert, v_scc, v_topo, v_cond = reply
+    closed, m_scc, m_topo, m_cadj, cert, v_scc, v_topo, v_cond = reply[:8]
     keyerr = case.get("missing") == "keyerror"
     dup = bool(case.get("dup"))
     tag = "" if closed else ":outside"
@@ -422,6 +422,9 @@ def evaluate(cases):
     for rp in replies:
         if rp and rp[0] == "error":
             raise core.Infra(f"Graph model rejected a request: {rp}")
+        if len(rp) != 9 or rp[8] is not True:
+            # hypothesis of the chk…Open_correct theorems (universe closed, contains the node list)
+            raise core.Infra(f"Graph driver: request universe not closed under the neighbour table: {rp}")
     return outs, replies
 
 
@@ -497,7 +500,7 @@ def run_cases(ctx, cases, do_shrink=True):
 def run(ctx, budget):
     ctx.cov["rule"] = RULE
     cases = list(edge_cases()) + [c["case"] for c in core.load_corpus("C14")]
-    n = 1500 * budget
+    n = 4000 * budget
     big = ctx.tier == "thorough"
     for i in range(n):
         r = i % 10
